@@ -17,8 +17,10 @@ RULE = ("seeded streams: rotation vectors = small-integer directions scaled to m
 TRUSTED = ["Coq 8.16.1 kernel, vm_compute for the correspondence evaluation",
            "execution instance QOpsF of coq/corr/K_C10.v: the same generic model on 256-bit binary fixed point (rounding < 1e-76; "
            "the exact-rational QOps needs seconds of gcd per Jacobian), instead of QOps",
-           "axioms (Print Assumptions): ClassicalDedekindReals.sig_forall_dec, sig_not_dec, "
-           "FunctionalExtensionality.functional_extensionality_dep, Classical_Prop.classic (all Coq stdlib Reals)",
+           "axioms (Print Assumptions of C10_all, including the Coquelicot-based derivative theorems): "
+           "ClassicalDedekindReals.sig_forall_dec, sig_not_dec, FunctionalExtensionality.functional_extensionality_dep, "
+           "Classical_Prop.classic (all Coq stdlib Reals; Coquelicot 3.x adds none beyond these)",
+           "Coquelicot (is_derive, auto_derive) for the statement and proof of the Jacobian-is-derivative theorems",
            "tools/symtrace.py tracing translator + numpy shim (re-validated numerically each run)",
            "np.linalg.svd (LAPACK): u @ v enters the model as data; contract checked: it equals the input to 1e-9 on rotations",
            "libm cos/sin/arccos: Reals' functions in theorems, 160-bit fixed-point series in the Q instance; arccos answered by the "
@@ -159,6 +161,55 @@ Proof. intros {vars} Hpath. unfold {T}_path in Hpath; rops. path_facts Hpath. un
   cbv [rod_inv_jac_identity rod_half concat app vlist vzero nfrac n0 n1 n2 vx vy vz]; rops.
   list_eq ltac:(first [ring | field; lra]). Qed.""",
         imports=imports_inv, perturb=0))
+    # half-turn branch (s < 1e-5, c <= 0): axis from the diagonal and the three sign fix-ups, one scenario per pattern the
+    # fix-ups distinguish.  The scenario matrices are symmetric (s = 0 exactly); the inexact ones have the diagonal shrunk
+    # by 1% so that the clip of c does not sit on a rounding tie (the trace does not need a rotation, only the path).
+    half_lemma = """Ltac decide_path := repeat (first
+  [ match goal with H : ?a < ?b |- context [Rltb ?a ?b] => rewrite (proj2 (Rltb_true a b) H) end
+  | match goal with H : ?b <= ?a |- context [Rltb ?a ?b] => rewrite (proj2 (Rltb_false a b) H) end
+  | progress cbn [andb negb Bool.eqb] ]).
+
+Lemma {T}_ok : forall {vars} : R, {T}_path ROps {vars} ->
+  forall v, rodrigues_inv ROps (fun m => m) %s = Some v ->
+  {T} ROps {vars} = vlist v ++ concat (rodrigues_inv_jac ROps (fun m => m) %s).
+Proof. intros {vars} Hpath v. unfold {T}_path in Hpath; rops. path_facts Hpath. unfold nfrac in *; rops.
+  unfold rodrigues_inv, rodrigues_inv_jac, rodrigues_inv_of_proj, rodrigues_inv_jac_of_proj, rod_inv_theta.
+  assert (Hc : rod_inv_c ROps %s = (m0 + m4 + m8 - 1) * (1 / 2)).
+  { unfold rod_inv_c. cbn [a00 a11 a22]. unfold rod_half, nfrac, n1 at 1; rops. apply nclip_id. lra. }
+  assert (Hs : rod_inv_s ROps %s =
+               sqrt ((m7 - m5) * (m7 - m5) + (m2 - m6) * (m2 - m6) + (m3 - m1) * (m3 - m1)) * (1 / 2)).
+  { unfold rod_inv_s, rod_antisym, rod_half, nfrac, vnorm, vnorm2, vdot; rops;
+    cbn [vx vy vz a00 a01 a02 a10 a11 a12 a20 a21 a22]. reflexivity. }
+  rewrite Hc, Hs. change (nltb ROps) with Rltb. change (neqb ROps) with Reqb.
+  rewrite (proj2 (Rltb_true _ _)) by (unfold rod_small, nfrac; rops; lra).
+  rewrite (proj2 (Rltb_false _ _)) by (unfold n0; rops; lra).
+  unfold rod_half_axis. cbn [a00 a01 a02 a10 a11 a12 a20 a21 a22].
+  rewrite !diag_root_nonneg by assumption.
+  change (nltb ROps) with Rltb. change (nabs ROps) with Rabs. change (nneg ROps) with Ropp. change (nmul ROps) with Rmult.
+  change (n0 ROps) with 0.
+  decide_path.
+  match goal with |- context [Reqb ?a ?b] => destruct (Reqb_spec a b) as [E|E] end; [discriminate|].
+  intros Ev; injection Ev as <-.
+  unfold {T}.
+  cbv [zeros93 repeat concat map app vlist vscale vnorm vnorm2 vdot nfrac n0 n1 n2 vx vy vz]; rops.
+  list_eq ltac:(first [ring | field; exact E]). Qed.""" % (M3, M3, M3, M3)
+
+    def shrunk_half_turn(k):
+        kk = np.array(k, dtype=float) / np.linalg.norm(k)
+        R = 2 * np.outer(kk, kk) - np.eye(3)
+        R = (R + R.T) / 2
+        return (R - 0.01 * np.diag(np.diag(R))).tolist()
+
+    half_scenarios = [
+        ("half_no_flip", shrunk_half_turn([2, 1, 2])),                       # r01 > 0, r02 > 0, |rx| largest
+        ("half_flip_y", shrunk_half_turn([2, -1, 2])),                       # r01 < 0: ry negated
+        ("half_flip_z", shrunk_half_turn([2, 2, -1])),                       # r02 < 0: rz negated
+        ("half_flip_yz_third_checked", shrunk_half_turn([1, -2, -2])),       # both negated, third test evaluated, quiet
+        ("half_third_fires", [[-1., 0., 0.], [0., 0., -1.], [0., -1., 0.]]),  # kx = 0, r12 < 0: third fix-up negates rz
+        ("half_third_quiet", [[-1., 0., 0.], [0., 0., 1.], [0., 1., 0.]]),    # kx = 0, r12 > 0: nothing to fix
+    ]
+    for name, Rm in half_scenarios:
+        ks.append(Kernel(name, {"m": Rm}, lambda m: _svd_stub_call(m, True), half_lemma, imports=imports_inv, perturb=0))
     return ks
 
 
